@@ -364,6 +364,10 @@ func m1cMonitor(in []int64) func(obs []int64) (string, string) {
 					}
 				}
 			}
+			if (l[0] == 2 || l[0] == 16) && (l[1] != outBefore || l[0] == 16 && true) && len(ws)+len(cbs) > 0 && !(l[0] == 2 && l[1] == outBefore) {
+				// a reply (or completion) that does not carry the outstanding id must be ignored
+				return "C09-foreign-reply-effect", fmt.Sprintf("event %d: reply/completion with foreign id %d (outstanding %d) caused writes/callbacks", i, l[1], outBefore)
+			}
 			for _, w := range ws {
 				id := w[1]
 				if paused && l[0] != 6 && l[0] != 9 {
@@ -411,10 +415,6 @@ func m1cMonitor(in []int64) func(obs []int64) (string, string) {
 			}
 			if l[0] == 2 && l[1] == outBefore && outBefore != 0 && !concluded[outBefore] {
 				return "C01-C09-genuine-reply-dropped", fmt.Sprintf("event %d: the reply carrying the outstanding id %d was not delivered to its caller", i, outBefore)
-			}
-			if (l[0] == 2 || l[0] == 16) && (l[1] != outBefore || l[0] == 16 && true) && len(ws)+len(cbs) > 0 && !(l[0] == 2 && l[1] == outBefore) {
-				// a reply (or completion) that does not carry the outstanding id must be ignored
-				return "C09-foreign-reply-effect", fmt.Sprintf("event %d: reply/completion with foreign id %d (outstanding %d) caused writes/callbacks", i, l[1], outBefore)
 			}
 		}
 		_ = 0
